@@ -23,15 +23,15 @@ def write(traces, path):
 _OK = re.compile(r'<<"TRACE-OK", (\d+)>>')
 
 
-def _run(module, path, invariants, constants=None):
-    cfg = tlc.make_cfg(constants or {}, invariants=invariants, spec="TraceSpec")
+def _run(module, path, invariants, constants=None, spec="TraceSpec"):
+    cfg = tlc.make_cfg(constants or {}, invariants=invariants, spec=spec)
     res = tlc.run(module, cfg, workers=1, timeout=1800, use_cache=False, env_extra={"TRACE_FILE": str(path)}, dfs=True)
     ok_ids = {int(m.group(1)) for m in _OK.finditer(res.tail)}
     # tail keeps only the last lines: re-read the whole stdout if the run dir survived
     return res, ok_ids
 
 
-def check(module, traces, invariants=(), tag="trace", max_rejections=4, constants=None):
+def check(module, traces, invariants=(), tag="trace", max_rejections=4, constants=None, spec="TraceSpec"):
     """traces: list of dicts with keys id (int), init, events.  Returns (accepted ids, rejections) where a rejection is
     (trace id, index of first unexplained event (0-based), reason)."""
     if not traces:
@@ -47,7 +47,7 @@ def check(module, traces, invariants=(), tag="trace", max_rejections=4, constant
             raise Machinery("trace validation does not converge")
         path = d / f"batch{guard}.ndjson"
         write(pending, path)
-        res, _ = _run(module, path, list(invariants), constants)
+        res, _ = _run(module, path, list(invariants), constants, spec)
         got = {int(m.group(1)) for mk in res.marks for m in [_OK.match(mk)] if m}
         ok_ids = [t["id"] for t in pending if t["id"] in got]
         inv_viol = [e for e in res.errors if "is violated" in e]
@@ -64,7 +64,7 @@ def check(module, traces, invariants=(), tag="trace", max_rejections=4, constant
             mid = (lo + hi) // 2
             p2 = d / "prefix.ndjson"
             write([dict(bad, events=bad["events"][:mid], prefix=True)], p2)
-            r2, _ = _run(module, p2, list(invariants), constants)
+            r2, _ = _run(module, p2, list(invariants), constants, spec)
             # a prefix may end mid-call (pc # idle): accepted iff all its records were consumed -> use the level reached
             consumed = _consumed(r2)
             if consumed >= mid and not [e for e in r2.errors if "is violated" in e]:
